@@ -462,6 +462,7 @@ type vROp struct {
 
 type vRCase struct {
 	name                       string
+	rotate                     uint // > 0: aof_file_rewrite_size for the whole history (size-triggered rotation + background compaction IN the history)
 	ndb                        int
 	keys                       [][2]int
 	ops                        []vROp
@@ -692,9 +693,16 @@ type vREnv struct {
 	stats           map[string]int
 	nmon            map[string]int
 	rseq            int
+	curName         string
 }
 
 func (e *vREnv) monitor(sig, what string, replay interface{}) {
+	if strings.HasPrefix(e.curName, "pass-") && sig != "C07:replay:?" {
+		// a must-pass corpus line (a repaired finding, or a scenario that has to work): whatever fires here is a regression,
+		// even if the same signature is a recorded finding elsewhere
+		parts := strings.SplitN(sig, ":", 2)
+		sig = parts[0] + ":regression:" + e.curName + ":" + parts[1]
+	}
 	e.nmon[sig]++
 	limit := 3
 	if sig == "C07:replay:?" {
@@ -826,6 +834,7 @@ func (e *vREnv) replayCheck(recs []vRRec, sn *vRSnap, now, base int64, line int,
 
 func (e *vREnv) runCase(it int, c *vRCase) {
 	stats := e.stats
+	e.curName = c.name
 	dir := filepath.Join(e.root, fmt.Sprintf("c%d", it))
 	_ = os.Mkdir(dir, 0755)
 	defer func() {
@@ -843,6 +852,13 @@ func (e *vREnv) runCase(it int, c *vRCase) {
 	opstr := make([]string, len(c.ops))
 	for i, o := range c.ops {
 		opstr[i] = o.String()
+		if c.rotate > 0 {
+			// rotation cases run entirely at virtual clock = real clock (no ticks of their own): the background compaction a rotation
+			// starts filters expired records against time.Now()
+			for n.now < time.Now().Unix() {
+				n.tick()
+			}
+		}
 		if o.cmd != nil {
 			n.do(*o.cmd)
 			if o.cmd.eflag&protocol.EXPRIED_FLAG_MILLISECOND_TIME != 0 {
@@ -852,6 +868,9 @@ func (e *vREnv) runCase(it int, c *vRCase) {
 			for k := 0; k < o.tick; k++ {
 				n.tick()
 			}
+		}
+		if c.rotate > 0 {
+			n.drainQuick() // the record is written, a rotation has happened, its compaction goroutine has finished
 		}
 	}
 	history := strings.Join(opstr, " ")
@@ -924,6 +943,24 @@ func (e *vREnv) runCase(it int, c *vRCase) {
 		return
 	}
 	e.out.emit(op, snA.String(base, false))
+	if c.rotate > 0 {
+		stats["rotation-cases"]++
+		if ents, err := os.ReadDir(dirA); err == nil {
+			for _, en := range ents {
+				var idx int
+				if _, err := fmt.Sscanf(en.Name(), "append.aof.%d", &idx); err == nil && !strings.HasSuffix(en.Name(), ".dat") && idx > 1 {
+					if idx-1 > stats["max-rotations-in-a-case"] {
+						stats["max-rotations-in-a-case"] = idx - 1
+					}
+				}
+			}
+		}
+	}
+	// byte level: every record with the has-value flag has its frame in the .dat of ITS OWN file, and nothing else is there
+	if bad := vRCheckPairing(dirA); bad != "" {
+		e.monitor("C16:rotation:record-and-value-in-different-files", "a record file and its value file do not pair: "+bad,
+			map[string]interface{}{"history": history, "cfg": fmt.Sprintf("buf=%d aofTime=%d rotate=%d", c.bufSize, c.aofT, c.rotate), "corpus": c.name, "journal": jA})
+	}
 	lineA := e.rout.n
 	e.rout.emit(fmt.Sprintf("aofreload %d %s", nowA-base, jA), snA.String(base, false))
 	replay["restored"] = snA.String(base, false)
@@ -972,7 +1009,13 @@ func (e *vREnv) runCase(it int, c *vRCase) {
 			}
 			what = "deadline-mismatch:" + ucls
 		}
-		e.monitor("C07:journal:"+vRJournalCause(recsA, d.id), "journal vs database at stop ("+what+"): "+d.what, replay)
+		if c.rotate > 0 {
+			// the histories of the rotation cases cannot meet the recorded journal / compaction classes (one live hold per key, no
+			// expiring or superseded level records): a journal that does not describe the database is the rotation's doing
+			e.monitor("C16:rotation:journal-differs", "journal (rotated and compacted in the history) vs database at stop ("+what+"): "+d.what, replay)
+		} else {
+			e.monitor("C07:journal:"+vRJournalCause(recsA, d.id), "journal vs database at stop ("+what+"): "+d.what, replay)
+		}
 		badJ[[2]int{d.id[0], d.id[1]}] = true
 	}
 	for _, k := range orig.keys {
@@ -983,7 +1026,11 @@ func (e *vREnv) runCase(it int, c *vRCase) {
 			}
 		}
 		if iv, ok := ideal.values[[2]int{k.db, k.key}]; has && !badJ[[2]int{k.db, k.key}] && k.valueAof && (!ok || iv != vHex(k.value)) {
-			e.monitor("C07:journal:value-mismatch", fmt.Sprintf("db %d key %d: the database holds value %s, the journal describes %q", k.db, k.key, vHex(k.value), iv), replay)
+			if c.rotate > 0 {
+				e.monitor("C16:rotation:journal-differs", fmt.Sprintf("(value) db %d key %d: the database holds value %s, the rotated journal describes %q", k.db, k.key, vHex(k.value), iv), replay)
+			} else {
+				e.monitor("C07:journal:value-mismatch", fmt.Sprintf("db %d key %d: the database holds value %s, the journal describes %q", k.db, k.key, vHex(k.value), iv), replay)
+			}
 		}
 	}
 	// ---- C07 (replay side)
@@ -1223,7 +1270,11 @@ func init() {
 			e.runCase(it, c)
 		}
 		for it := 0; it < ncase; it++ {
-			e.runCase(len(corpus)+it, vRGenCase(r, it))
+			if it%4 == 3 {
+				e.runCase(len(corpus)+it, vRGenRotateCase(r))
+			} else {
+				e.runCase(len(corpus)+it, vRGenCase(r, it))
+			}
 		}
 		ks := []string{}
 		for k := range e.stats {
@@ -1310,6 +1361,9 @@ func vRLoadCorpus(path string) []*vRCase {
 				c.outage = v
 			case "compact":
 				c.compact = v != 0
+			case "rotate":
+				c.rotate = uint(v)
+				c.rewriteSize = uint(v)
 			}
 		}
 		seen := map[[2]int]bool{}
@@ -1692,4 +1746,92 @@ func vRJournalCause(recs []vRRec, id [3]int) string {
 		}
 	}
 	return "other"
+}
+
+// vRGenRotateCase: a history WITHOUT ticks (it runs at virtual clock = real clock) whose journal rotates every 2-6 records: one
+// persist-now hold per key, with and without a value, some re-locked, some released — value-carrying and value-free records land
+// on and next to every size boundary.
+func vRGenRotateCase(r *rand.Rand) *vRCase {
+	c := &vRCase{ndb: 1 + r.Intn(2), aofT: 0}
+	c.bufSize = []uint{64, 128, 4096}[r.Intn(3)]
+	c.rotate = uint(12 + 64*(2+r.Intn(5)))
+	c.rewriteSize = c.rotate
+	nh := 6 + r.Intn(12)
+	type hh struct{ db, key, depth int }
+	var live []hh
+	val := func(i int) *protocol.LockCommandData {
+		if r.Intn(2) == 0 {
+			return nil
+		}
+		return protocol.NewLockCommandDataSetString(fmt.Sprintf("v%d.%d", i, r.Intn(100)))
+	}
+	for i := 0; i < nh; i++ {
+		switch {
+		case len(live) > 0 && r.Intn(6) == 0:
+			j := r.Intn(len(live))
+			h := live[j]
+			live = append(live[:j], live[j+1:]...)
+			c.ops = append(c.ops, vROp{cmd: &vRCmd{kind: 'U', db: h.db, key: h.key, lockId: 1, data: val(i)}})
+		case len(live) > 0 && r.Intn(5) == 0:
+			j := r.Intn(len(live))
+			if live[j].depth < 3 {
+				live[j].depth++
+				c.ops = append(c.ops, vROp{cmd: &vRCmd{kind: 'L', db: live[j].db, key: live[j].key, lockId: 1, eflag: 0x4100, expried: 100, rcount: 3, data: val(i)}})
+			}
+		default:
+			h := hh{db: r.Intn(c.ndb), key: 500 + i, depth: 1}
+			live = append(live, h)
+			c.keys = append(c.keys, [2]int{h.db, h.key})
+			cmd := &vRCmd{kind: 'L', db: h.db, key: h.key, lockId: 1, eflag: 0x4100, expried: 100, rcount: 3, data: val(i)}
+			if r.Intn(3) == 0 {
+				cmd.eflag, cmd.expried = 0x100, 300+r.Intn(300)
+				for k := range live {
+					if live[k].key == h.key {
+						live[k].depth = 3 // (terms of a re-lock above are the unlimited ones: keep these holds single-level)
+					}
+				}
+			}
+			c.ops = append(c.ops, vROp{cmd: cmd})
+		}
+	}
+	sort.Slice(c.keys, func(i, j int) bool {
+		return c.keys[i][0] < c.keys[j][0] || (c.keys[i][0] == c.keys[j][0] && c.keys[i][1] < c.keys[j][1])
+	})
+	return c
+}
+
+// vRCheckPairing: for every log file of dir, the number of records with the has-value flag equals the number of frames in its
+// .dat, and the .dat has no bytes left over. "" = fine.
+func vRCheckPairing(dir string) string {
+	ents, err := os.ReadDir(dir)
+	if err != nil {
+		return ""
+	}
+	for _, en := range ents {
+		nm := en.Name()
+		if en.IsDir() || strings.HasSuffix(nm, ".dat") || !(strings.HasPrefix(nm, "append.aof.") || nm == "rewrite.aof") {
+			continue
+		}
+		rec, _ := os.ReadFile(filepath.Join(dir, nm))
+		dat, _ := os.ReadFile(filepath.Join(dir, nm+".dat"))
+		want := 0
+		for o := 12; o+64 <= len(rec); o += 64 {
+			if (uint16(rec[o+55])|uint16(rec[o+56])<<8)&AOF_FLAG_CONTAINS_DATA != 0 {
+				want++
+			}
+		}
+		have, p := 0, 0
+		for p+4 <= len(dat) {
+			l := int(dat[p]) | int(dat[p+1])<<8 | int(dat[p+2])<<16 | int(dat[p+3])<<24
+			if p+4+l > len(dat) {
+				break
+			}
+			p += 4 + l
+			have++
+		}
+		if want != have || p != len(dat) {
+			return fmt.Sprintf("%s has %d records with a value, %s.dat has %d frames (%d of %d bytes)", nm, want, nm, have, p, len(dat))
+		}
+	}
+	return ""
 }
